@@ -1047,7 +1047,9 @@ def c04d(chk):
         ch = an.calls(h, "core::iter::traits::iterator::Iterator::chain")
         kinds = sorted(("RangeTo" if "RangeTo<" in x else "RangeFrom" if "RangeFrom<" in x else x) for x in idx)
         plus = [rv for _, _, _, rv, _ in h.assigns() if rv["k"] == "binop" and rv["op"].startswith("Add") and 1 in (const_val(rv["l"]), const_val(rv["r"]))]
-        ok = kinds == ["RangeFrom", "RangeTo"] and len(ch) == 1 and len(plus) == 1
+        # (only iter / chain may touch the two pieces: a rev() would hand the leading axes out backwards)
+        others = sorted({callee_name(t["callee"]).split("::")[-1] for b, t in h.calls()} - {"iter", "chain", "index", "as_ref", "deref", "into_iter"})
+        ok = kinds == ["RangeFrom", "RangeTo"] and len(ch) == 1 and len(plus) == 1 and not others
         # chain order: [..removed] first
         if ok:
             a0, i0 = adaptors_of(h, ch[0][1]["args"][0])
